@@ -155,6 +155,11 @@ Clauses(e, n) ==
                /\ RWithin1(lhold'[p][a].upnl, Unrealised(P))                                  \* (price - avg cost) * net
                /\ Abs(lhold'[p][a].tpnl - lhold'[p][a].rpnl - lhold'[p][a].upnl) <= 2         \* total = realised + unrealised
                /\ Abs(lhold'[p][a].tpnl - (lhold'[p][a].mv - P.paid - P.fees)) <= 1) >>,       \* = market value - paid - fees
+        \* the same two identities on the logged figures for positions of ANY volume (sums of money only: no overflow)
+        << << "C03", "pnl-identities" >>, Amt(\A p \in ps \cap DOMAIN pos' : \A a \in DOMAIN lhold'[p] \cap DOMAIN pos'[p] :
+             lhold'[p][a].qty = Net(pos'[p][a]) /\ lhold'[p][a].qty # 0 =>
+               /\ Abs(lhold'[p][a].tpnl - lhold'[p][a].rpnl - lhold'[p][a].upnl) <= 2
+               /\ Abs(lhold'[p][a].tpnl - (lhold'[p][a].mv - pos'[p][a].paid - pos'[p][a].fees)) <= 1) >>,
         \* ghost-ledger invariants on the LOGGED balances: catches cumulative drift
         << << "C01", "ledger" >>, Amt(\A p \in ps : p \in DOMAIN ledger' /\
              cash'[p] = ledger'[p].in - ledger'[p].out - ledger'[p].cost) >>,
